@@ -6,6 +6,7 @@ import (
 	"fmt"
 	"os"
 	"sort"
+	"strings"
 	"sync"
 	"time"
 
@@ -21,8 +22,25 @@ func main() {
 	one := flag.Int("one", -1, "run one case with trace")
 	tail := flag.Bool("tail", false, "")
 	wl := flag.String("wl", "dev", "")
+	commitFail := flag.Bool("commitfail", false, "")
+	commErr := flag.Bool("commerr", false, "")
+	split := flag.Bool("split", false, "")
+	weights := flag.String("weights", "", "strategy weights k=v,k=v")
+	only := flag.String("only", "", "print only violations of this property in -one mode")
 	flag.Parse()
-	p := &sim.Profile{Workload: *wl, Adversary: *adv, HonestOnly: !*adv, MaxSteps: *steps, MaxH: *maxh, MinN: 4, MaxN: 7, Tail: *tail}
+	p := &sim.Profile{Workload: *wl, Adversary: *adv, HonestOnly: !*adv, MaxSteps: *steps, MaxH: *maxh, MinN: 4, MaxN: 7, Tail: *tail, CommitFailures: *commitFail, CommErrors: *commErr, SplitHandoff: *split}
+	if *weights != "" {
+		p.AdvWeights = map[string]int{}
+		for _, kv := range strings.Split(*weights, ",") {
+			var k string
+			var v int
+			parts := strings.SplitN(kv, "=", 2)
+			k = parts[0]
+			fmt.Sscan(parts[1], &v)
+			p.AdvWeights[k] = v
+		}
+	}
+	_ = only
 	if *one >= 0 {
 		p.KeepTrace = true
 		r := sim.RunCase(*seed, p, *one)
